@@ -24,7 +24,7 @@ func init() {
 			"(e) each refresh function passes its cancel loop over [FirstSlotOfEpoch(epoch), FirstSlotOfEpoch(epoch+1)) before it re-schedules, and the attester refresh re-creates the current slot's job only if that job was actually cancelled; " +
 			"(f) checkEventForReorg stores epoch and both dependent roots on every path and starts the change handlers under comparisons of stored with received roots; (g) the epoch ticker tests and records latestEpochRan in one critical section before it schedules anything; " +
 			"(h) every scheduling call made at start-up passes notCurrentSlot = true or !waitedForGenesis; (i) the fork epochs used are the fetched ones (shared with C15.g); (j) MergeDuties appends the three per-slot arrays together (index spaces). " +
-			"Added with the third seeding round: (l) the scheduler's job-name test and insert are one critical section inside the scheduling function itself (the controller's one-job-per-slot relies on it); (m) the chain time service truncates elapsed time, it never rounds. Added with the fourth seeding round: (n) a clock reading compared with slots is not older than a beacon-node request between reading and comparison; (o) contexts handed to goroutines or the scheduler are not cancelled by the function (or its callers) that hands them over; (p) the controller cancels jobs by full name only. NOT decided: agreement of StartOfSlot/CurrentSlot/SlotToEpoch for all chain parameters (numeric), exactly-one job per slot across concurrent refreshes (interleavings, C02), completeness of the beacon node's duties.",
+			"Added with the third seeding round: (l) the scheduler's job-name test and insert are one critical section inside the scheduling function itself (the controller's one-job-per-slot relies on it); (m) the chain time service truncates elapsed time, it never rounds. Added with the fourth seeding round: (n) a clock reading compared with slots is not older than a beacon-node request between reading and comparison; (o) contexts handed to goroutines or the scheduler are not cancelled by the function (or its callers) that hands them over; (p) the controller cancels jobs by full name only. Added with the fifth seeding round: (j, extended) what NewDuty receives from MergeDuties is each collection's entry for the duty's slot, never a collection filled across slots; (q) whether the slot under way is scheduled again is never decided from the wall clock. NOT decided: agreement of StartOfSlot/CurrentSlot/SlotToEpoch for all chain parameters (numeric), exactly-one job per slot across concurrent refreshes (interleavings, C02), completeness of the beacon node's duties.",
 		Technique:   "guard/edge-deletion queries with relation sets, provenance of ScheduleJob arguments and of closure captures, string-table extraction and agreement (writer vs readers of job names), dominance of cancel loops, lock-set dataflow, index-space analysis",
 		Rule:        "one obligation per duty-job site and filter (a), per ScheduleJob call (b,c), per name format use (d), per refresh function (e), per tracking field/handler (f), per epoch-ticker step (g), per start-up scheduling call (h), per fork-detail function (i)",
 		Assumptions: []string{"job names are built with fmt.Sprintf from constant formats (true on this tree; a non-constant name makes the check fail as undecided)"},
@@ -693,6 +693,31 @@ func runC03(p *core.Prog, r *core.Report, tier string) {
 		r.Floor("C03.o contexts handed to goroutines and the scheduler", nCtx, 20)
 	}
 
+	// ---- (q) whether the slot under way is left out of a (re)scheduling is decided by what happened to its job — a
+	// constant, a parameter, or the outcome of cancelling it — never by the wall clock: a job that was started early
+	// has already run although its time has not come, and would be set up and run a second time ----
+	{
+		nNC := 0
+		for _, f := range fns {
+			for _, ci := range core.Calls(f, func(c *ssa.CallCommon) bool {
+				callee := c.StaticCallee()
+				return callee != nil && (callee.Name() == "scheduleProposals" || callee.Name() == "scheduleAttestations" || callee.Name() == "scheduleSyncCommitteeMessages")
+			}) {
+				args := ci.Common().Args
+				last := args[len(args)-1]
+				if b, ok := last.Type().Underlying().(*types.Basic); !ok || b.Kind() != types.Bool {
+					continue
+				}
+				nNC++
+				d := ds.D(last)
+				clock := d.MentionsCall("time.Now", "time.Since", "time.Until", "StartOfSlot", "time.Time.Before", "time.Time.After")
+				r.Check(!clock, "C03.q", fmt.Sprintf("%s|not-current-slot#%d", core.FnKey(f), nNC), p.Pos(ci.Pos()), "the current-slot exclusion does not depend on the wall clock",
+					"whether the slot under way is scheduled again is decided from the wall clock ("+d.String()+"): a proposal/attestation of that slot that was kicked off early has already run, and is set up and run a second time")
+			}
+		}
+		r.Floor("C03.q scheduling calls with a current-slot exclusion", nNC, 8)
+	}
+
 	// ---- (p) duties obtained keep their jobs: the controller withdraws jobs by full name only (shared with C15.l) ----
 	checkNoPrefixCancel(p, r, "C03.p")
 
@@ -928,6 +953,13 @@ func runC03(p *core.Prog, r *core.Report, tier string) {
 				}
 				ad := ds.D(a)
 				if ad.Kind != "lookup" {
+					// what describes one slot's duty is that slot's entry, never the collection for all slots
+					switch a.Type().Underlying().(type) {
+					case *types.Map, *types.Slice:
+						if _, isLocalMap := a.(*ssa.MakeMap); isLocalMap {
+							r.Violate("C03.j", "MergeDuties|NewDuty-arg|"+callee.Params[i].Name()+"|per-slot", p.Pos(ci.Pos()), "NewDuty's "+callee.Params[i].Name()+" receives a collection that is filled for all slots of the response ("+ad.String()+") instead of the entry of the duty's slot: values of different slots overwrite each other (the committee size of one slot is used for another)")
+						}
+					}
 					continue
 				}
 				pn := strings.ToLower(callee.Params[i].Name())
